@@ -125,6 +125,14 @@ def gen_case(impl, rng):
     if skeys and idkeys and rng.random() < 0.5:
         i = rng.choice(list(idkeys))
         idkeys[i] = impl.from_shape(('g', rng.choice(list(skeys)), 'z'))
+    # numerals that are spelled like node identities (of designated and of other nodes), placed BEFORE the designated nodes:
+    # an identity key must never match a token
+    if idkeys and rng.random() < 0.35:
+        others = [v[1] for _, v in allsub]
+        spelled = [str(k) for k in idkeys] + [str(rng.choice(others))]
+        t = impl.from_shape(('ids',) + tuple(spelled))
+        forest.insert(0, t)
+        vals.insert(0, of_impl(t))
     return forest, vals, idkeys, skeys
 
 
